@@ -375,3 +375,24 @@ pub fn impl_canonical(w: &WireReq, cfg: &Cfg) -> Option<(Vec<u8>, Option<Vec<u8>
     }));
     r.ok().flatten()
 }
+
+/// Key database whose answer also carries an identity that depends on the session token of the request
+/// (user "<token>" in account 123456789012; "anonymous" without a token).
+pub fn token_principal_provider(secrets: Vec<(String, String)>) -> Provider {
+    use scratchstack_aws_signature::principal::{Principal, User};
+    use scratchstack_aws_signature::{GetSigningKeyResponse, KSecretKey};
+    use std::str::FromStr;
+    Provider::new(Box::new(move |r| {
+        let secret = secrets.iter().find(|(ak, _)| ak == r.access_key()).map(|(_, s)| s.clone());
+        match secret {
+            Some(s) => {
+                let key = KSecretKey::from_str(&s).map_err(|e| Box::new(e) as tower::BoxError)?.to_ksigning(r.request_date(), r.region(), r.service());
+                let name: String = r.session_token().unwrap_or("anonymous").chars().filter(|c| c.is_ascii_alphanumeric()).take(32).collect();
+                let name = if name.is_empty() { "empty".to_string() } else { name };
+                let principal: Principal = User::new("aws", "123456789012", "/", &name).map_err(|e| Box::new(e) as tower::BoxError)?.into();
+                Ok(GetSigningKeyResponse::builder().principal(principal).signing_key(key).build().unwrap())
+            }
+            None => Err(Box::new(SignatureError::InvalidClientTokenId("The security token included in the request is invalid".into()))),
+        }
+    }))
+}
